@@ -77,6 +77,7 @@ type runner struct {
 	nmsg           int
 	nbar           int
 	calls          int64
+	nrejects       int64
 	final          int32 // final phase: the application accepts everything
 	armed          bool
 	base           int64
@@ -109,6 +110,9 @@ func (r *runner) callback(m *packet.Message, err error) error {
 	if !strings.HasPrefix(tag, "barrier") && atomic.LoadInt32(&r.final) == 0 && len(r.c.Reject) > 0 {
 		k := atomic.AddInt64(&r.calls, 1) - 1
 		reject = r.c.Reject[int(k)%len(r.c.Reject)]
+		if reject && atomic.AddInt64(&r.nrejects, 1) > 6 {
+			reject = false // an application that rejected six deliveries accepts from then on (keeps scripts finite)
+		}
 	}
 	note := "accepted"
 	if reject {
